@@ -10,12 +10,13 @@
 //
 // policy mode: the real remedies.RetryPlugin.OnResponse on a lock-step clock (state with TTL in utils.MemoryCache;
 //
-//	the cache's sleeper goroutines are waited for after every advance, so recordings are deterministic).
+//	the cache's sleeper goroutines are waited for after every advance, so recordings are reproducible).
 //
 // flows mode:  the real Retry processor inside an engine built from a directory:
 //
 //	response flow  Filter(status_code_range) -hit-> Retry -retry/failed-> end ; mock clock pumped while the
-//	processor waits for its cool-down.
+//	processor waits for its cool-down.  The multiplier is written as a YAML float ("2.0"): an integer literal
+//	is read back as 0 by ParamValue.GetFloat64 (observation, outside this property).
 //
 // Pure executor: the recorded `out` is a direct projection of the real answer
 //
@@ -31,6 +32,7 @@ import (
 	"runtime"
 	"strings"
 	"sync"
+	"sync/atomic"
 	"time"
 
 	"lunar/engine/actions"
@@ -70,49 +72,65 @@ var epoch = time.Unix(1_700_000_000, 0)
 
 // ---------------------------------------------------------------- policy mode
 
+// sleepersDone counts the TTL sleepers of the current plugin's cache that have removed their key (hook
+// cache.sleeper.done; keys of other caches and of earlier histories do not carry the current prefix).
+var (
+	sleepersDone atomic.Int64
+	setsSeen     atomic.Int64 // Set calls of the current plugin's cache (hook cache.set.checked): each starts one sleeper
+	keyPrefix    atomic.Value // string
+	historySeq   int
+)
+
 type policyRun struct {
 	clk    *vh.StepClock
 	plugin *remedies.RetryPlugin
 	cfg    *sharedConfig.RetryConfig
-	base   int // goroutines alive when nothing of the plugin is pending
+	fired  int64
 	txn    int
+	prefix string // sequence ids are made unique per history: "<prefix><s>"
 }
 
 func newPolicy(e Event) *policyRun {
-	p := &policyRun{clk: vh.NewStepClock(epoch)}
+	historySeq++
+	p := &policyRun{clk: vh.NewStepClock(epoch), prefix: fmt.Sprintf("h%d.", historySeq)}
+	sleepersDone.Store(0)
+	setsSeen.Store(0)
+	keyPrefix.Store(p.prefix)
 	p.plugin = remedies.NewRetryPlugin(p.clk)
 	p.cfg = &sharedConfig.RetryConfig{Attempts: e.A, InitialCooldownSeconds: e.Cd, CooldownMultiplier: e.Mult}
 	for _, r := range e.Ranges {
 		p.cfg.Conditions.StatusCode = append(p.cfg.Conditions.StatusCode, sharedConfig.Range[int]{From: r[0], To: r[1]})
 	}
-	p.base = runtime.NumGoroutine()
 	return p
 }
 
-// settle waits until every sleeper goroutine of the cache is parked on a timer of the step clock (or has exited):
-// the number of goroutines then equals base + armed timers.
+// settle waits until every sleeper whose timer fired has removed its key (Set starts `clock.Sleep(ttl); clearKey(key)`
+// per call), so that the next call does not race with a stale sleeper and recordings are reproducible.
 func (p *policyRun) settle() {
 	deadline := time.Now().Add(5 * time.Second)
-	for {
-		if runtime.NumGoroutine() == p.base+p.clk.Pending() {
-			return
-		}
+	for sleepersDone.Load() < p.fired {
 		if time.Now().After(deadline) {
-			vh.Die("policy: goroutines did not settle: %d alive, base %d, %d timers", runtime.NumGoroutine(), p.base, p.clk.Pending())
+			vh.Die("policy: %d of %d fired sleepers did not finish", sleepersDone.Load(), p.fired)
 		}
 		runtime.Gosched()
-		time.Sleep(20 * time.Microsecond)
 	}
 }
 
 func (p *policyRun) resp(e Event) vh.Ev {
 	p.txn++
-	id := e.S
+	seq := p.prefix + e.S
+	id := seq
 	if !e.New {
-		id = fmt.Sprintf("%s-t%d", e.S, p.txn)
+		id = fmt.Sprintf("%s-t%d", seq, p.txn)
 	}
-	a, err := p.plugin.OnResponse(lunarMessages.OnResponse{ID: id, SequenceID: e.S, Status: e.St, Method: "GET", URL: "api.test/x"}, p.cfg)
-	p.settle()
+	a, err := p.plugin.OnResponse(lunarMessages.OnResponse{ID: id, SequenceID: seq, Status: e.St, Method: "GET", URL: "api.test/x"}, p.cfg)
+	// every Set has started a sleeper goroutine: wait until it is parked on its timer, otherwise a later advance
+	// would not fire it and it would arm its timer relative to the later instant
+	for deadline := time.Now().Add(5 * time.Second); p.clk.TimersCreated() < setsSeen.Load(); runtime.Gosched() {
+		if time.Now().After(deadline) {
+			vh.Die("policy: sleeper of a cache entry did not arm its timer")
+		}
+	}
 	out := vh.Ev{"ev": "resp", "s": e.S, "st": e.St, "new": e.New}
 	switch v := a.(type) {
 	case *actions.NoOpAction:
@@ -134,9 +152,14 @@ func (p *policyRun) resp(e Event) vh.Ev {
 }
 
 func (p *policyRun) adv(d int) {
-	p.clk.Advance(time.Duration(d) * time.Second)
-	p.settle()
+	if n := p.clk.Advance(time.Duration(d) * time.Second); n > 0 {
+		p.fired += int64(n)
+		p.settle()
+	}
 }
+
+// finish fires every sleeper still parked so that no goroutine outlives the history.
+func (p *policyRun) finish() { p.adv(1_000_000) }
 
 // ----------------------------------------------------------------- flows mode
 
@@ -157,7 +180,7 @@ processors:
       - key: cooldown_between_attempts_seconds
         value: %d
       - key: cooldown_multiplier
-        value: %d
+        value: %d.0
 flow:
   request:
     - from:
@@ -210,14 +233,50 @@ flow:
 `
 
 type flowsRun struct {
-	eng *streams.Stream
-	txn int
+	eng  *streams.Stream
+	txn  int
+	pump bool // the processor waits for a positive cool-down: the mock clock must be moved while it runs
 
 	mu   sync.Mutex
 	seen []string // outputs of RetryProc during the current transaction
 }
 
 var engineDirSeq int
+
+var current *flowsRun // the engine whose Retry processor outputs are being recorded
+
+func sink(point string, kv ...any) {
+	switch point {
+	case "cache.set.checked":
+		if len(kv) >= 2 {
+			pre, _ := keyPrefix.Load().(string)
+			if k, ok := kv[1].(string); ok && pre != "" && strings.HasPrefix(k, pre) {
+				setsSeen.Add(1)
+			}
+		}
+	case "cache.sleeper.done":
+		if len(kv) >= 2 {
+			pre, _ := keyPrefix.Load().(string)
+			if k, ok := kv[1].(string); ok && pre != "" && strings.HasPrefix(k, pre) {
+				sleepersDone.Add(1)
+			}
+		}
+	case "proc.exec":
+		f := current
+		if f == nil {
+			return
+		}
+		m := map[string]any{}
+		for i := 0; i+1 < len(kv); i += 2 {
+			m[fmt.Sprint(kv[i])] = kv[i+1]
+		}
+		if m["key"] == "RetryProc" {
+			f.mu.Lock()
+			f.seen = append(f.seen, fmt.Sprint(m["out"]))
+			f.mu.Unlock()
+		}
+	}
+}
 
 func newFlows(e Event, root string) (*flowsRun, error) {
 	if len(e.Ranges) != 1 {
@@ -243,21 +302,8 @@ func newFlows(e Event, root string) (*flowsRun, error) {
 		return nil, err
 	}
 	os.RemoveAll(dir)
-	f := &flowsRun{eng: eng}
-	verifhook.SetSink(func(point string, kv ...any) {
-		if point != "proc.exec" {
-			return
-		}
-		m := map[string]any{}
-		for i := 0; i+1 < len(kv); i += 2 {
-			m[fmt.Sprint(kv[i])] = kv[i+1]
-		}
-		if m["key"] == "RetryProc" {
-			f.mu.Lock()
-			f.seen = append(f.seen, fmt.Sprint(m["out"]))
-			f.mu.Unlock()
-		}
-	})
+	f := &flowsRun{eng: eng, pump: e.Cd > 0 || e.Mult > 0}
+	current = f
 	return f, nil
 }
 
@@ -285,8 +331,12 @@ wait:
 		case err = <-done:
 			break wait
 		case <-time.After(50 * time.Microsecond):
-			// the processor is (about to be) waiting for its cool-down: jump to the armed timer
-			mock.WaitForAllTimers()
+			// the processor is (about to be) waiting for its cool-down: jump to the armed timer.  Not with a zero
+			// cool-down: MockClock.After(0) fires its own timer and a concurrent pump can fire it a second time
+			// (send on the full channel under the clock's mutex = deadlock of the mock clock, not of the code under test)
+			if f.pump {
+				mock.WaitForAllTimers()
+			}
 			if time.Now().After(deadline) {
 				vh.Die("flows: ExecuteFlow did not return")
 			}
@@ -325,6 +375,7 @@ func (f *flowsRun) adv(d int) {
 
 func main() {
 	vh.Quiet()
+	verifhook.SetSink(sink)
 	if len(os.Args) != 4 || os.Args[1] != "run" {
 		vh.Die("usage: c17 run <scripts.json> <outdir>")
 	}
@@ -345,6 +396,9 @@ func main() {
 			for _, e := range h {
 				switch e.Ev {
 				case "reset":
+					if pol != nil {
+						pol.finish()
+					}
 					pol, fl = nil, nil
 					rec := vh.Ev{"ev": "reset", "mode": e.Mode, "A": e.A, "cd": e.Cd, "mult": e.Mult, "ranges": e.Ranges, "seqs": e.Seqs}
 					switch e.Mode {
@@ -379,6 +433,9 @@ func main() {
 				default:
 					vh.Die("unknown event %q", e.Ev)
 				}
+			}
+			if pol != nil {
+				pol.finish()
 			}
 		}
 		tr.Write(filepath.Join(os.Args[3], fmt.Sprintf("trace-%03d.ndjson", si)))
